@@ -236,6 +236,11 @@ pub struct Repr<
 
     cache: TinyLFU<K::Key, Arc<RwLock<Entry<C>>>>,
     single_flight: single_flight::SingleFlight<K::Key>,
+
+    /// Bumped by every `insert`/`remove` after the operation has been staged
+    /// and before the cached set is looked up; a fetch only caches the set it
+    /// built if no write happened since before it took its staging snapshot.
+    write_generation: std::sync::atomic::AtomicU64,
 }
 
 impl<K: KeyOfSetColumn, C: ConcurrentSet<Element = K::Element> + 'static>
@@ -259,6 +264,7 @@ impl<K: KeyOfSetColumn, C: ConcurrentSet<Element = K::Element> + 'static>
             single_flight: single_flight::SingleFlight::new(
                 default_shard_amount(),
             ),
+            write_generation: std::sync::atomic::AtomicU64::new(0),
         }
     }
 
@@ -392,6 +398,9 @@ impl<
         Option<Spilled<C, Db::ScanMemberIterator<K>>>,
     ) {
         loop {
+            // must be read before the staging snapshot is taken
+            let generation =
+                self.repr.write_generation.load(Ordering::SeqCst);
             let staging_snapshot = self.get_staging_snapshot(key);
             let mut spilled = None;
 
@@ -408,7 +417,19 @@ impl<
 
                     self.repr.cache.entry(key.clone(), |e| match e {
                         tiny_lfu::Entry::Vacant(vaccant_entry) => {
-                            vaccant_entry.insert(entry.clone());
+                            // an operation staged after our snapshot is not
+                            // in `entry`, and its writer may already have
+                            // looked for a cached set to update: do not
+                            // cache what we built (it is still a valid
+                            // answer for this call)
+                            if self
+                                .repr
+                                .write_generation
+                                .load(Ordering::SeqCst)
+                                == generation
+                            {
+                                vaccant_entry.insert(entry.clone());
+                            }
                         }
                         tiny_lfu::Entry::Occupied(_) => {
                             // Do nothing as another thread inserted an explicit
@@ -549,6 +570,8 @@ impl<
                 VersionedOperation { op: op.clone(), epoch, seq },
             ));
         }
+
+        self.repr.write_generation.fetch_add(1, Ordering::SeqCst);
 
         // Step 2: Update Cache (Optimization)
         // We DO NOT load from DB if missing. We only update if present.
